@@ -860,4 +860,16 @@ theorem root_frozen (ord : Order) : ∀ (evs : List Event) (d : Disk) (b : Blob)
 def exLoad (c : Bytes) (persist accepted : Bool) : Load :=
   { cfg := c, force := false, accepted := accepted, nonNil := true, persistCfg := persist, allowPersist := true }
 
+/-- a load that is not the unchanged-document no-op, accepted, persistence on, no fault: returns ok, the
+    file and the running document are its config, the file operations are the whole autosave program -/
+theorem loadStep_fresh_ok (l : Load) (a : AState) (hs : sameCfg l a = false)
+    (hp : l.persists = true) (hacc : l.accepted = true) :
+    (loadStep codeStyle l none a).res = .ok ∧ (loadStep codeStyle l none a).st.fs.path = some l.cfg ∧
+    (loadStep codeStyle l none a).st.cur = some l.cfg ∧
+    (loadStep codeStyle l none a).log = autosaveOps .tmpRename l.cfg := by
+  have ho := ops_tmpRename_nofault a.fs l.cfg
+  unfold loadStep
+  simp only [hs, Bool.false_eq_true, if_false, hacc, Bool.not_true, hp, if_true, codeStyle, ho.2.1]
+  exact ⟨trivial, ho.1, trivial, ho.2.2⟩
+
 end CaddyModel.C14
